@@ -32,7 +32,7 @@ IDENTITY_ATTRS = {"values", "data", "T", "real_if_close", "data_vars"}
 UNARY = {
     "sqrt": sp.sqrt, "cos": sp.cos, "sin": sp.sin, "tan": sp.tan, "exp": sp.exp, "log": sp.log,
     "tanh": sp.tanh, "sinh": sp.sinh, "cosh": sp.cosh, "abs": sp.Abs, "absolute": sp.Abs,
-    "arctan": sp.atan, "arcsin": sp.asin, "arccos": sp.acos, "floor": sp.floor, "ceil": sp.ceiling,
+    "fabs": sp.Abs, "arctan": sp.atan, "arcsin": sp.asin, "arccos": sp.acos, "floor": sp.floor, "ceil": sp.ceiling,
     "conj": sp.conjugate, "conjugate": sp.conjugate, "real": sp.re, "imag": sp.im,
     "square": lambda x: x**2, "deg2rad": lambda x: x * sp.pi / 180, "radians": lambda x: x * sp.pi / 180,
     "rad2deg": lambda x: x * 180 / sp.pi, "degrees": lambda x: x * 180 / sp.pi,
@@ -49,7 +49,7 @@ KNOWN_EXT = {
     "concatenate", "roll", "unravel_index", "ravel_multi_index", "reshape", "meshgrid", "interp", "angle",
     "maximum", "minimum", "hypot", "arctan2", "power", "multiply", "add", "subtract", "divide", "true_divide",
     "mod", "remainder", "fmod", "floor_divide", "logical_and", "logical_or", "logical_not", "dot", "outer", "indices",
-    "greater_equal", "less", "greater", "less_equal", "equal", "not_equal",
+    "greater_equal", "less", "greater", "less_equal", "equal", "not_equal", "broadcast_arrays", "ascontiguousarray",
     "sort", "argsort", "flip", "unique", "tile", "repeat", "stack", "vstack", "hstack", "nan_to_num",
     "datetime64", "timedelta64", "errstate", "dtype", "shape", "size", "ndim", "iscomplex", "isreal",
     "expand_dims", "broadcast_to", "swapaxes", "moveaxis", "take", "nonzero", "count_nonzero", "allclose",
@@ -376,6 +376,8 @@ def call_numpy(it, tail, args, kwargs, env, node, chain):
                 and fname(a1) == "item" and a1.args[0] == a0.args[0] and a1.args[1] == 0:
             return op("roll", a0.args[0], sp.Integer(-1))
         return op("concatenate", sp.Tuple(a0, a1), sp.Integer(0))
+    if tail == "broadcast_arrays" and t:
+        return tuple(t)            # the same values, shaped alike
     if tail == "concatenate":
         seq = a[0]
         axis = a[1] if len(a) > 1 else kw(kwargs, "axis", num(0))
